@@ -13,7 +13,7 @@ FO = 'src/operator/mod.rs'
 FN = 'src/network/mod.rs'
 ASSUMPTIONS = [
     "callee contracts used, not bodies: Batcher::enqueue/flush/end (unit batcher), NextStrategy::index (unit next_strategy), prev.next() returns any element; the route predicates (FilterFn) are opaque pure functions",
-    "RoutingEnd.inv (every endpoint's sender indexes non-empty, in range, pairwise distinct, covering all senders) is the postcondition of RoutingEnd::setup_endpoints (hash-map code, not under contract); the strategy is OnlyOne (index 0) as built by RouterBuilder",
+    "RoutingEnd.inv (every endpoint's sender indexes non-empty, in range, pairwise distinct, covering all senders) is the postcondition of RoutingEnd::setup_endpoints, discharged on its real body by unit setup_endpoints (the structural clauses); the strategy is OnlyOne (index 0) as built by RouterBuilder (assumed)",
     "V-ITER: loop headers desugared to index/while loops (listed under coverage.rewrites), bodies verbatim",
 ]
 PRELUDE = r'''
